@@ -87,4 +87,12 @@ TEXT = {
         "note": COMMON_NOTE + "The 'well-formed iff delivered' characterisation of a single frame is checked by the independent Go specification (direct oracle), not by a Coq iff.",
         "technique": "Coq proof (RFC 1071 arithmetic, frame layout, read/write inversion) + differential correspondence + independent validator",
     },
+    "C03": {
+        "text": "Panics and non-termination are explicit results of the model (Panic, Fuel); theorems show every decoding entry point returns Ok or Err for ALL byte strings, re-encoding "
+                "decoded values cannot panic, and at every nesting level the decoded option has the constructor the ParseOption table assigns to its code (so the accessors' unchecked "
+                "type assertions hold). The harness runs every entry point and every niladic exported method / builder / extractor on mutated inputs under recover and a watchdog, "
+                "and compares verdict classes with the model.",
+        "note": COMMON_NOTE + "fmt/regexp-based printing and the ztp/netboot extractors are exercised by the harness only (not modelled).",
+        "technique": "Coq proof (totality with explicit Panic/Fuel, decoder-image lemma) + mutation-driven crash search with recover/watchdog + verdict correspondence",
+    },
 }
